@@ -155,6 +155,7 @@ def kinds():
     vs = [["v", "x"], ["v", "x", ["k"]], ["v", "x", ["asbool"]], ["v", "x", ["k", "onmatch"]], ["v", "x-y"]]
     ts = [["t", "abc", "str"], ["t", "a b,c", "str"], ["t", "", "str"], ["t", "5", "int"], ["t", "-3", "int"], ["t", "+2", "int"], ["t", "1.5", "float"], ["t", "-0.25", "float"], ["t", ".5", "float"],
           ["t", "x]y", "str"], ["t", "x[y", "str"], ["t", "p ~ q", "str"], ["t", "a$b #c @d", "str"], ["t", "s->t==u", "str"], ["t", "(z),/re/", "str"],  # grammar punctuation inside a string
+          ["t", "two\n    lines", "str"], ["t", "  a\tb   c ", "str"],  # a line break / runs of blanks inside a string belong to the string
           ["t", "0", "int"], ["t", "9007199254740993", "int"], ["t", "-12345678901234567891", "int"], ["t", "100.0", "float"]]  # integers a double cannot hold
     ts += [["t", r, "regex"] for r in REGEXES]
     out = []
